@@ -86,7 +86,7 @@ def player_one_left_right_transitions(length, width, moves, offset_l, offset_r):
                 transition.append(("Right", offset_r + i * width + j))
             elif j == 0:
                 transition.append(("Left",  offset_l + i * width + width - 1))
-                transition.append(("Right", offset_r + i * width + j + 1))
+                transition.append(("Right", offset_r + i * width + (j + 1) % width))
             elif j == width - 1:
                 transition.append(("Left",  offset_l + i * width + j - 1))
                 transition.append(("Right", offset_r + i * width))
